@@ -36,6 +36,7 @@ try:
     hdr = src[:src.index("package " + pkgname)]
     cands = [c.rstrip("/.") + "/" for c in re.findall(r"([A-Za-z0-9_.-]+(?:/[A-Za-z0-9_.-]+)+/?)", hdr)]
     cands += re.findall(r"([A-Za-z0-9_./-]+/)", hdr)
+    cands += re.findall(r"package directory `?([A-Za-z0-9_./-]+)", hdr)
     place = None
     for c in cands:
         c = c.strip("./")
